@@ -463,7 +463,8 @@ pub fn check<P: Property>(p: &P, ctx: &Ctx, workers: u64, verif_dir: &Path, extr
     let mut probes = res.probes.clone();
     probes.sort();
     let mut probe_mismatch = None;
-    for (idx, fp) in probes.iter().take(64) {
+    let first_violation = res.violation.as_ref().map(|v| v.0).unwrap_or(u64::MAX);
+    for (idx, fp) in probes.iter().filter(|(i, _)| *i < first_violation).take(64) {
         let scn = p.generate(ctx, *idx);
         let ex = p.execute(ctx, &scn);
         if ex.fingerprint != *fp {
